@@ -72,10 +72,16 @@ func runSplineCase(c corridor) splineCase {
 	select {
 	case <-done:
 	case <-time.After(3 * time.Second):
+		select { // a busy machine is not a hang: another half minute
+		case <-done:
+			goto returned
+		case <-time.After(30 * time.Second):
+		}
 		sc.Outcome = 2
 		sc.Problems = []string{"the fitter did not return within 3 s"}
 		return sc
 	}
+returned:
 	if sc.Outcome == 1 {
 		sc.Problems = []string{"the fitter panicked: " + sc.Panic}
 		return sc
